@@ -45,16 +45,21 @@ def main():
                 dm = sh(["/venv/bin/python", "-W", "ignore", os.path.join(d, "demo.py")], cwd=wt, env=env, timeout=900)
                 meta["baseline_tests_pass"] = t.returncode == 0
                 meta["demo_with_change_exit"] = dm.returncode
-            t0 = time.time()
-            c = sh([os.path.join(VERIF, "check.py"), prop, "--tier", "quick", "--no-evidence", "--no-selftest"],
-                   env=dict(os.environ, VERIF_REPO=wt), timeout=7200)
-            sigs = sorted({ln.split()[1] for ln in c.stdout.splitlines() if ln.startswith("violation ")})
-            meta.setdefault("checks", {})[prop] = {"exit": c.returncode, "signatures": sigs, "wall_s": round(time.time() - t0, 1)}
+            rcs = []
+            for chk in [prop] + list(meta.get("also", [])):  # 'also': the check that owns the mutated function
+                t0 = time.time()
+                c = sh([os.path.join(VERIF, "check.py"), chk, "--tier", "quick", "--no-evidence", "--no-selftest"],
+                       env=dict(os.environ, VERIF_REPO=wt), timeout=7200)
+                sigs = sorted({ln.split()[1] for ln in c.stdout.splitlines() if ln.startswith("violation ")})
+                meta.setdefault("checks", {})[chk] = {"exit": c.returncode, "signatures": sigs, "wall_s": round(time.time() - t0, 1)}
+                rcs.append(c.returncode)
+                if chk != prop:
+                    print(f"{name}: (also) {chk} exit {c.returncode} {sigs[:2]}")
             meta["caught_by"] = [p for p, v in meta["checks"].items() if v["exit"] == 1]
             meta["verif_commit"] = sh(["git", "-C", VERIF, "rev-parse", "--short", "HEAD"]).stdout.strip()
             json.dump(meta, open(mp, "w"), indent=1)
-            print(f"{name}: {prop} exit {c.returncode} {sigs[:3]}")
-            if c.returncode != 1:
+            print(f"{name}: {prop} exit {rcs[0]} {meta['checks'][prop]['signatures'][:3]}")
+            if 1 not in rcs:
                 missed.append(name)
         finally:
             sh(["git", "-C", "/repo", "worktree", "remove", "--force", wt])
